@@ -13,7 +13,12 @@
   unroll(E, effs)      effects inside a loop over a table that only decomposes once private helpers are inlined
                        (`for w in self.writers()`): one effect per element
   partitions(..)       loops that visit an in-order partition of a slice parameter (its bytes; its `split_inclusive`
-                       segments) together with the test that says "this part ends with the marker"
+                       segments; the parts a cursor loop cuts off) together with the test that says "this part ends with
+                       the marker"
+  cursor_loops(..)     `while let Some(i) = rest.iter().position(|b| b == M) { (part, rest) = rest.split_at(i + 1) .. }`:
+                       the template whose loop invariant (parts so far ++ rest == buf, every part ends with its only M, the
+                       rest is M-free on exit) holds by construction; cut_function: a private function that returns the
+                       collected parts and the rest
   guard_views(..)      boolean facts implied by the guards of an effect (incl. `Option::filter(p)` being Some => p)
 """
 from .lib.mir import op_place
@@ -471,6 +476,7 @@ LAZY_MORE = {iters.IT + 'flat_map', iters.IT + 'flatten', iters.IT + 'zip', iter
 
 # ---- in-order partitions of a slice parameter -----------------------------------------------------------------------
 IT = iters.IT
+ORDERED_COLLECTIONS = ('std::vec::Vec<', 'std::boxed::Box<[', 'std::collections::VecDeque<')
 ORDERED_SAME = {IT + 'copied', IT + 'cloned', IT + 'by_ref', IT + 'peekable', IT + 'fuse'}
 
 
@@ -492,16 +498,49 @@ class Partition:
        kind 'bytes'     every byte                       (for b in buf)
        kind 'segments'  buf.split_inclusive(|b| b == M)  every segment ends right after its first (and only) M, the last
                         one may lack it
+       kind 'cut'       the parts that end right after their first (and only) M, and — a value of its own, `tail` — the
+                        M-free rest: the two results of a private cutting function (cut_function), or the parts cut off by
+                        a cursor loop in fn itself and what its cursor holds afterwards (CursorPartition)
     The place is either a loop of fn (`for part in <parts>`: body = fn, the per-part statements are the loop body, the part
     is the loop element) or the closure handed to an eager in-order consumer of the same iterator
     (`<parts>.try_for_each(|part| ..)`, for_each, try_fold, fold: body = that closure, the per-part statements are the
     closure body, the part is the closure's element parameter; the consumer calls it once per part, in order, and a
     try_* consumer stops at the first failure exactly like `?` in the loop)."""
 
-    def __init__(self, fn, loop, kind, marker=None, body=None, call=None, elem=None):
+    def __init__(self, fn, loop, kind, marker=None, body=None, call=None, elem=None, tail=None, tail_src=None):
         self.fn, self.loop, self.kind, self.marker = fn, loop, kind, marker
         self.body = body if body is not None else fn      # the function the per-part statements live in
         self.call, self.elem = call, elem                 # closure form: the consumer call in fn, the element parameter index
+        self.tail, self.tail_src = tail, tail_src         # kind 'cut': the value of the marker-free rest; (call, projection) it is
+
+    # kind 'cut': the parts visited all end with their only marker (no test is needed to know it); what follows the last of
+    # them — the marker-free rest, possibly empty — is a value of its own that is available once the parts are exhausted
+    terminated = property(lambda self: self.kind == 'cut')
+    has_tail = property(lambda self: self.kind == 'cut')
+
+    def is_tail(self, g, call, sl):
+        """argument 1 of `call` (in function g) is the marker-free rest"""
+        if not (self.tail is not None and g is self.fn and len(call.args) > 1 and strip(sl.operand(g, call.args[1])) == self.tail):
+            return False
+        src, proj = self.tail_src
+        local, pr, _ = root(g, op_place(call.args[1]), call.bb)     # statement level: the cutting function's result itself
+        return local is not None and _single_call_def(g, local) is src and pr == proj and not any(how in ('refmut', 'rawptr') for _, _, _, how, _ in g.uses_of(local))
+
+    def after_parts(self, bb):
+        """block bb of fn is only reached once every part was visited"""
+        if self.loop is None:       # closure form: after the eager consumer returned
+            return self.call is not None and bb != self.call.bb and self.fn.dominates(self.call.bb, bb)
+        ex = getattr(self.loop, 'exhaust', None)
+        return ex is not None and bb not in self.loop.body and edge_dominates(self.fn, ex[0], ex[1], bb)
+
+    def is_exhaust_cond(self, cd):
+        """cd says no more than `every part was visited` (closure form: .. and none of the per-part closure calls failed)"""
+        if cd.kind != 'variant' or cd.fn is not self.fn:
+            return False
+        if self.loop is None:
+            s = strip(_try_subject(cd.subject)) if cd.subject is not None else ('unknown',)
+            return self.call is not None and bool(cd.outcome) and set(cd.outcome) <= OKISH and s[0] == 'call' and len(s) == 4 and s[3] == (self.fn.path, self.call.bb)
+        return _is_next_cond(self.fn, self.loop, cd) and set(cd.outcome or ()) == {'None'}
 
     def is_elem(self, v):
         v = strip(v)
@@ -523,7 +562,8 @@ class Partition:
         """cd is the loop's own `next()` is Some test"""
         return self.loop is not None and _is_next_cond(self.fn, self.loop, cd)
 
-    APPEND = {'bytes': ('std::vec::Vec::<T, A>::push',), 'segments': ('std::vec::Vec::<T, A>::extend_from_slice',)}
+    APPEND = {'bytes': ('std::vec::Vec::<T, A>::push',), 'segments': ('std::vec::Vec::<T, A>::extend_from_slice',),
+              'cut': ('std::vec::Vec::<T, A>::extend_from_slice',)}
 
     def ends_with_marker(self, v, is_marker):
         """is boolean value v the statement "this part ends with the marker byte" (marker recognised by is_marker)"""
@@ -540,6 +580,36 @@ class Partition:
         return False
 
 
+class CursorPartition(Partition):
+    """kind 'cut' spelled as a cursor loop in fn itself: the part is split_at(..).0 of the current iteration, the per-part
+    statements are those between the split_at and the back edge, the rest is what the cursor holds after the loop"""
+
+    def __init__(self, fn, CL):
+        Partition.__init__(self, fn, None, 'cut', CL.marker)
+        self.CL = CL
+
+    def is_elem(self, v):
+        v = strip(v)
+        while v[0] == 'cast':
+            v = strip(v[1])
+        return self.CL.is_part(v)
+
+    def in_body(self, g, bb):
+        return g is self.fn and self.CL.per_iteration(bb)
+
+    def is_next_cond(self, cd):
+        return cd.fn is self.fn and cd.kind == 'variant' and cd.sw_bb == self.CL.sw_bb and set(cd.outcome or ()) == {'Some'}
+
+    def is_tail(self, g, call, sl):
+        return g is self.fn and len(call.args) > 1 and op_place(call.args[1]) is not None and self.CL.reads_tail(op_place(call.args[1]), call.bb)
+
+    def after_parts(self, bb):
+        return self.CL.after(bb)
+
+    def is_exhaust_cond(self, cd):
+        return cd.fn is self.fn and cd.kind == 'variant' and cd.sw_bb == self.CL.sw_bb and cd.target == self.CL.exit
+
+
 # eager consumers that call their closure once per element, in order: name -> (closure argument, element parameter of the closure)
 EACH = {IT + 'try_for_each': (1, 1), IT + 'for_each': (1, 1), IT + 'try_fold': (2, 2), IT + 'fold': (2, 2)}
 
@@ -547,16 +617,45 @@ EACH = {IT + 'try_for_each': (1, 1), IT + 'for_each': (1, 1), IT + 'try_fold': (
 def _parts_of(sl, fn, coll, idx, is_marker):
     """(kind, marker) when iterating `coll` visits an in-order partition of parameter idx of fn"""
     coll = peel_same(coll)
+    # collected into a Vec / boxed slice / VecDeque first (same elements, same order) and iterated afterwards
+    stored = []
+    for _ in range(4):
+        c = sl.prog.fns[coll[3][0]].call_at(coll[3][1]) if coll[0] == 'call' and coll[1] == IT + 'collect' and len(coll) == 4 and coll[3] and coll[3][0] in sl.prog.fns else None
+        if c is None or len(coll[2]) != 1 or not (c.dty or '').startswith(ORDERED_COLLECTIONS) or c.fn is not fn:
+            break
+        stored.append(c)
+        coll = peel_same(coll[2][0])
     if is_param(coll, fn, idx):
-        return 'bytes', None
+        return 'bytes', None, stored
     if coll[0] == 'call' and 'slice::<impl [T]>::split_inclusive' in coll[1] and len(coll[2]) == 2 and is_param(peel_same(coll[2][0]), fn, idx):
         b = ('unknown', 'element')
         pred = sl.apply_closure(coll[2][1], (b,))
         if pred is not None and pred[0] == 'bin' and pred[1] == 'Eq' and b in (strip(pred[2]), strip(pred[3])):
             m = pred[3] if strip(pred[2]) == b else pred[2]
             if is_marker(m):
-                return 'segments', m
+                return 'segments', m, stored
     return None
+
+
+def reaches_unedited(fn, call, src, proj=()):
+    """statement level (in-place mutation does not show in value terms): the receiver of `call` is — through iterator views
+    (`iter`, `into_iter`, `copied`, ..), moves and shared borrows — field `proj` of the result of call `src`, and nothing
+    on the way (the stored collection included) is ever mutably borrowed, except the iterators themselves by their consumer"""
+    mut_borrowed = lambda x: any(how in ('refmut', 'rawptr') for _, _, _, how, _ in fn.uses_of(x))
+    place, bb = op_place(call.args[0]) if call.args else None, call.bb
+    for hop in range(10):
+        if place is None:
+            return False
+        local, pr, bb = root(fn, place, bb, through_mut=hop == 0)       # the iterator a consumer pulls from is `&mut` by nature
+        c2 = _single_call_def(fn, local) if local is not None and not (1 <= local <= fn.argc) else None
+        if c2 is None:
+            return False
+        if c2 is src:
+            return pr == tuple(proj) and not mut_borrowed(local)
+        if pr or not c2.args or not (c2.name in ORDERED_SAME or ((c2.name or '').endswith(ITER_VIEW) and not c2.name.startswith(IT))):
+            return False
+        place, bb = op_place(c2.args[0]), c2.bb
+    return False
 
 
 def partitions(sl, E, fn, idx, is_marker):
@@ -566,18 +665,48 @@ def partitions(sl, E, fn, idx, is_marker):
             continue
         km = _parts_of(sl, fn, L.collection, idx, is_marker)
         if km is not None:
-            out.append(Partition(fn, L, km[0], km[1]))
+            # parts stored in a Vec first: the loop visits that Vec as it was collected
+            if all(reaches_unedited(fn, L.next_call, c) for c in km[2][:1]) and len(km[2]) <= 1:
+                out.append(Partition(fn, L, km[0], km[1]))
+            continue
+        # the Vec of marker-terminated parts a private cutting function returned for (buf, marker)
+        cc = _cut_parts_of(sl, fn, L.collection, idx, is_marker, L.next_call)
+        if cc is not None:
+            out.append(Partition(fn, L, 'cut', cc[0], tail=cc[1], tail_src=cc[2]))
+    # a cursor loop in fn itself
+    for CL in cursor_loops(sl, fn, is_marker):
+        if CL.buf == idx + 1 and not any(h2 != CL.header and CL.header in b2 for h2, b2, _ in natural_loops(fn)):
+            out.append(CursorPartition(fn, CL))
     # the same iteration spelled with an eager consumer and a closure
     for c in fn.calls:
         ci = EACH.get(c.decl) if not c.indirect else None
         if ci is None or len(c.args) <= ci[0]:
             continue
         km = _parts_of(sl, fn, sl.operand(fn, c.args[0]), idx, is_marker)
+        if km is not None and (len(km[2]) > 1 or not all(reaches_unedited(fn, c, x) for x in km[2])):
+            km = None
         clv = strip(sl.operand(fn, c.args[ci[0]]))
         g = sl.prog.fns.get(clv[1]) if clv[0] == 'closure' else None
         if km is not None and g is not None and g.parent == fn.path and not fn.in_loop(c.bb):
             out.append(Partition(fn, None, km[0], km[1], body=g, call=c, elem=ci[1]))
+        cc = _cut_parts_of(sl, fn, sl.operand(fn, c.args[0]), idx, is_marker, c) if km is None else None
+        if cc is not None and g is not None and g.parent == fn.path and not fn.in_loop(c.bb):
+            out.append(Partition(fn, None, 'cut', cc[0], body=g, call=c, elem=ci[1], tail=cc[1], tail_src=cc[2]))
     return out
+
+
+def _cut_parts_of(sl, fn, coll, idx, is_marker, consumer):
+    """(marker, value of the marker-free rest, (cutting call, projection of the rest)) when iterating `coll` — what
+    `consumer` (the loop's next call / an eager consumer) pulls from — visits the marker-terminated parts that a private
+    cutting function returned for (parameter idx of fn, the marker)"""
+    coll = peel_same(coll)
+    cv = strip(coll[1]) if coll[0] == 'field' and len(coll) == 3 else None
+    g = sl.prog.fns.get(cv[1]) if cv is not None and cv[0] == 'call' and len(cv) == 4 and cv[3] and cv[3][0] == fn.path else None
+    cut = cut_function(sl, g) if g is not None else None
+    if cut is not None and coll[2] == cut.segs and len(cv[2]) > max(cut.buf, cut.marker) and is_param(peel_same(cv[2][cut.buf]), fn, idx) \
+            and is_marker(cv[2][cut.marker]) and not fn.in_loop(cv[3][1]) and reaches_unedited(fn, consumer, fn.call_at(cv[3][1]), ('.' + cut.segs,)):
+        return cv[2][cut.marker], ('field', cv, cut.tail), (fn.call_at(cv[3][1]), ('.' + cut.tail,))
+    return None
 
 
 # ---- data provenance at statement level (what the slicer's value terms do not show: in-place mutation) ---------------
@@ -734,3 +863,292 @@ def field_mutations(prog, fn, field):
 def _rv_places(rv):
     from .lib.mir import _rvalue_places
     return list(_rvalue_places(rv))
+
+
+# ---- cursor loops: a slice cut after each marker by position + split_at ------------------------------------------------
+# `let mut rest = buf; while let Some(i) = rest.iter().position(|b| *b == M) { let (seg, tail) = rest.split_at(i + 1); ..seg..;
+# rest = tail; } ..rest..` (or `seg = &rest[..=i]; rest = &rest[i + 1..]`) visits an in-order partition of buf: by induction over the iterations (split_at(r, k) is (a, b)
+# with a ++ b == r for ANY k, so no arithmetic is needed) the parts seen so far followed by `rest` are always buf; k is the
+# position of the first M plus one, so every part ends with its only M; the loop is left exactly when `rest` holds no M.
+# The template is matched on statements (which local is re-assigned where) and on value terms (the predicate, k).
+SPLIT_AT = 'slice::<impl [T]>::split_at'
+ITER_VIEW = ('::iter', '::into_iter')
+
+
+def natural_loops(fn):
+    """[(header, body, latches)] of the natural loops of fn's normal-edge CFG"""
+    if fn.__dict__.get('_c19_nat_loops') is not None:
+        return fn.__dict__['_c19_nat_loops']
+    preds = fn.preds()
+    out = []
+    for h in sorted(fn.reachable(0)):
+        from_h = fn.reachable(h)
+        latches = [p for p in preds[h] if p in from_h and fn.dominates(h, p)]
+        if not latches:
+            continue
+        body, work = {h}, list(latches)
+        while work:
+            b = work.pop()
+            if b in body:
+                continue
+            body.add(b)
+            work.extend(p for p in preds[b] if p in from_h)
+        out.append((h, body, latches))
+    fn.__dict__['_c19_nat_loops'] = out
+    return out
+
+
+def root(fn, place, bb, through_mut=False):
+    """follow `place` (read in block bb) back through moves, copies, borrows and reborrows of temporaries that have a single
+    definition and are never mutably borrowed themselves (unless through_mut): -> (local, field projections, block in which that local is read).
+    The local reached is a parameter, the destination of a call, or a local with several definitions (loop-carried)."""
+    if not place:
+        return None, (), bb
+    local, proj = place[0], tuple(p for p in place[1:] if p != '*')
+    for _ in range(24):
+        if 1 <= local <= fn.argc:
+            break
+        ds = fn.whole_defs(local)
+        if len(ds) != 1 or fn.partial_defs(local) or ds[0][0] != 'stmt':
+            break
+        rv = ds[0][3]
+        if rv['r'] == 'use':
+            pl = op_place(rv['o'])
+        elif rv['r'] in ('ref', 'cfd'):
+            pl = rv['p']
+        else:
+            break
+        if pl is None or (not through_mut and any(how in ('refmut', 'rawptr') for _, _, _, how, _ in fn.uses_of(local))):
+            break
+        bb = ds[0][1]
+        local, proj = pl[0], tuple(p for p in pl[1:] if p != '*') + proj
+    return local, proj, bb
+
+
+def _stmt_root(fn, d):
+    """root of the value a ('stmt', ..) definition assigns"""
+    if d[0] != 'stmt':
+        return None, (), None
+    rv = d[3]
+    pl = op_place(rv['o']) if rv['r'] == 'use' else (rv['p'] if rv['r'] in ('ref', 'cfd') else None)
+    return root(fn, pl, d[1]) if pl else (None, (), None)
+
+
+class CursorLoop:
+    """fn's loop (header, body) that cuts parameter local `buf` after each byte equal to `marker` (a value in fn's terms):
+    R the cursor local, pos the position call, part_call the call that yields the cut-off part (split_at: its field 0; an
+    Index call: its result), part = (local, projections) of that part, (sw_bb -> exit) the edge taken when no marker is left,
+    other_exits: the loop can also be left in another way (`?`, break, return)"""
+
+    def __init__(self, **kw):
+        self.__dict__.update(kw)
+
+    def after(self, bb):
+        """bb is only reached once the loop found no further marker"""
+        return bb not in self.body and edge_dominates(self.fn, self.sw_bb, self.exit, bb)
+
+    def reads_tail(self, place, bb):
+        """`place`, read in bb, is what the cursor holds after the loop: the marker-free remainder"""
+        local, proj, rbb = root(self.fn, place, bb)
+        return local == self.R and proj == () and self.after(rbb)
+
+    def is_part(self, v):
+        """value v is the part cut off in the current iteration"""
+        v = strip(v)
+        if self.part[1]:
+            if not (v[0] == 'field' and len(v) == 3 and '.' + v[2] == self.part[1][0]):
+                return False
+            v = strip(v[1])
+        return v[0] == 'call' and len(v) == 4 and v[3] == (self.fn.path, self.part_call.bb)
+
+    def per_iteration(self, bb):
+        """block bb runs exactly once per cut-off part (conditions aside): after the part was cut off, before the back edge"""
+        return bb in self.body and bb != self.part_call.bb and self.fn.dominates(self.part_call.bb, bb)
+
+
+SLICE_INDEX = 'Index<I> for [T]>::index'
+
+
+def _single_call_def(fn, local):
+    ds = fn.whole_defs(local)
+    return ds[0][3] if len(ds) == 1 and ds[0][0] == 'call' and not fn.partial_defs(local) and not ds[0][3].indirect else None
+
+
+def cursor_loops(sl, fn, is_marker=None):
+    """the CursorLoops of fn; is_marker: predicate the compared-with value has to satisfy (default: a parameter of fn)"""
+    out = []
+    mut_borrowed = lambda x: any(how in ('refmut', 'rawptr') for _, _, _, how, _ in fn.uses_of(x))
+    for h, body, latches in natural_loops(fn):
+        reads_cursor = lambda R, c, i=0: len(c.args) > i and (lambda r: r[0] == R and not r[1] and r[2] in body)(root(fn, op_place(c.args[i]), c.bb))
+        for R in range(1, len(fn.locals)):
+            # the cursor: initialised to a slice parameter (or that parameter itself), re-assigned once per iteration to the rest
+            defs = fn.whole_defs(R)
+            inside = [d for d in defs if d[1] in body]
+            outside = [d for d in defs if d[1] not in body]
+            if len(inside) != 1 or inside[0][0] not in ('stmt', 'call') or fn.partial_defs(R) or mut_borrowed(R):
+                continue
+            if 1 <= R <= fn.argc:
+                buf = R if not outside else None
+            else:
+                buf = None
+                if len(outside) == 1 and fn.dominates(outside[0][1], h):
+                    b, bp, _ = _stmt_root(fn, outside[0])
+                    if b is not None and 1 <= b <= fn.argc and not bp and not fn.whole_defs(b) and not fn.partial_defs(b):
+                        buf = b
+            if buf is None:
+                continue
+            step_bb = inside[0][1]
+            if inside[0][0] == 'call':      # the call's result is stored in the cursor directly (after its arguments were read)
+                rl, rproj, rc = R, (), (inside[0][3] if not inside[0][3].indirect else None)
+            else:
+                rl, rproj, _ = _stmt_root(fn, inside[0])
+                rc = _single_call_def(fn, rl) if rl is not None and not (1 <= rl <= fn.argc) else None
+            if rc is None or rc.bb not in body or len(rc.dest) != 1 or len(rc.args) != 2 or not reads_cursor(R, rc):
+                continue
+            # the gate: position(<iterator over the cursor>, |b| b == marker) is Some
+            gate = None
+            for cd in conditions(fn, rc.bb, sl):
+                s = strip(cd.subject) if cd.subject is not None else ('unknown',)
+                if cd.kind == 'variant' and cd.outcome and set(cd.outcome) == {'Some'} and cd.sw_bb in body and s[0] == 'call' and s[1] == IT + 'position' \
+                        and len(s) == 4 and s[3] and s[3][0] == fn.path and s[3][1] in body:
+                    gate = cd
+            pc = fn.call_at(strip(gate.subject)[3][1]) if gate is not None else None
+            if pc is None or pc.indirect or len(pc.args) != 2:
+                continue
+            one = lambda x: x[0] == 'const' and type(x[1]) is int and x[1] == 1
+            is_pos = lambda v: (lambda x: x[0] == 'call' and len(x) == 4 and x[3] == (fn.path, pc.bb))(strip(v))
+
+            def is_pos1(v):
+                """the index of that first marker, plus one"""
+                v = strip(v)
+                if v[0] == 'field' and len(v) == 3 and v[2] == '0':
+                    v = strip(v[1])
+                if not (v[0] == 'bin' and v[1] in ('Add', 'AddWithOverflow') and len(v) == 4):
+                    return False
+                return (one(strip(v[3])) and is_pos(v[2])) or (one(strip(v[2])) and is_pos(v[3]))
+
+            def range_of(c, adt, fld, test):
+                v = strip(sl.operand(fn, c.args[1]))
+                return v[0] == 'agg' and v[1] == adt and len(v[3]) == 1 and v[3][0][0] == fld and test(v[3][0][1])
+            # how the cursor is cut: (part, rest) = R.split_at(i + 1)  |  part = &R[..=i] / &R[..i + 1], rest = &R[i + 1..]
+            part_call = None
+            if (rc.name or '').endswith(SPLIT_AT) and rproj == ('.1',) and is_pos1(sl.operand(fn, rc.args[1])):
+                part_call, part = rc, (rc.dest[0], ('.0',))
+            elif (rc.name or '').endswith(SLICE_INDEX) and rproj == () and range_of(rc, 'std::ops::RangeFrom', 'start', is_pos1):
+                cands = [c for c in fn.calls if c.bb in body and not c.indirect and (c.name or '').endswith(SLICE_INDEX) and len(c.args) == 2 and len(c.dest) == 1
+                         and reads_cursor(R, c) and (range_of(c, 'std::ops::RangeToInclusive', 'end', is_pos) or range_of(c, 'std::ops::RangeTo', 'end', is_pos1))]
+                if len(cands) == 1:
+                    part_call, part = cands[0], (cands[0].dest[0], ())
+            if part_call is None:
+                continue
+            if (step_bb in (rc.bb, part_call.bb) and inside[0][0] != 'call') or step_bb == part_call.bb or not fn.dominates(rc.bb, step_bb) or not fn.dominates(part_call.bb, step_bb) or not all(fn.dominates(step_bb, l) for l in latches):
+                continue
+            if not edge_dominates(fn, gate.sw_bb, gate.target, part_call.bb):
+                continue
+            local, proj, rb = root(fn, op_place(pc.args[0]), pc.bb)
+            for _ in range(6):
+                if local == R or proj:
+                    break
+                c2 = _single_call_def(fn, local)
+                if c2 is None or not c2.args or not (c2.name in ORDERED_SAME or ((c2.name or '').endswith(ITER_VIEW) and not c2.name.startswith(IT))):
+                    break
+                local, proj, rb = root(fn, op_place(c2.args[0]), c2.bb)
+            if local != R or proj or rb not in body:
+                continue
+            b = ('unknown', 'element')
+            pred = sl.apply_closure(strip(sl.operand(fn, pc.args[1])), (b,))
+            if pred is None or pred[0] != 'bin' or pred[1] != 'Eq' or b not in (strip(pred[2]), strip(pred[3])):
+                continue
+            m = pred[3] if strip(pred[2]) == b else pred[2]
+            if is_marker is not None:
+                if not is_marker(m):
+                    continue
+            elif not (strip(m)[0] == 'param' and strip(m)[1] == fn.path):
+                continue
+            # the loop is left (normally) through the gate only
+            leaving = [(x, s) for x in body for s in fn.succs(x) if s not in body and fn.blocks[s]['t']['t'] != 'unreachable']
+            exits = sorted({s for x, s in leaving if x == gate.sw_bb})
+            if len(exits) != 1 or gate.target in exits:
+                continue
+            out.append(CursorLoop(fn=fn, header=h, body=body, latches=latches, R=R, buf=buf, marker=m, pos=pc, part_call=part_call, part=part, sw_bb=gate.sw_bb,
+                                  exit=exits[0], step_bb=step_bb, other_exits=any(x != gate.sw_bb for x, s in leaving)))
+    return out
+
+
+class Cut:
+    """private function fn(.., buf, .., marker, ..) -> tuple whose field `segs` is the Vec of the marker-terminated parts of
+    buf, in order, and whose field `tail` is the marker-free rest (parameter indices as in value terms)"""
+
+    def __init__(self, fn, buf, marker, segs, tail):
+        self.fn, self.buf, self.marker, self.segs, self.tail = fn, buf, marker, segs, tail
+
+
+VEC_NEW = ('std::vec::Vec::<T>::new', 'std::vec::Vec::<T>::with_capacity')
+
+
+def _collects_parts(fn, A, CL):
+    """local A is a Vec that is created empty before the loop and changed by nothing but one push of the current part in
+    every iteration"""
+    ds = fn.whole_defs(A)
+    if 1 <= A <= fn.argc or len(ds) != 1 or ds[0][0] != 'call' or fn.partial_defs(A) or ds[0][1] in CL.body:
+        return False
+    if ds[0][3].indirect or not ds[0][3].is_(*VEC_NEW) or not fn.dominates(ds[0][1], CL.header):
+        return False
+    pushes = []
+
+    def borrowed(ref_local, depth=0):
+        uses = [u for u in fn.uses_of(ref_local) if u[1] != 'drop']
+        if len(uses) != 1 or depth > 3 or len(fn.whole_defs(ref_local)) != 1 or fn.partial_defs(ref_local):
+            return False
+        bi, kind, idx, how, pl = uses[0]
+        if kind == 'arg' and idx == 0 and len(pl) == 1:
+            c = fn.call_at(bi)
+            if c is not None and not c.indirect and c.is_('std::vec::Vec::<T, A>::push') and len(c.args) == 2:
+                pushes.append(c)
+                return True
+            return False
+        if kind == 'stmt' and how == 'refmut' and pl[1:] == ['*']:
+            tgt = fn.blocks[bi]['s'][idx][1]
+            return len(tgt) == 1 and borrowed(tgt[0], depth + 1)
+        return False
+    for bi, kind, idx, how, pl in fn.uses_of(A):
+        if kind == 'drop':
+            continue
+        if kind == 'stmt' and how == 'refmut' and len(pl) == 1:
+            tgt = fn.blocks[bi]['s'][idx][1]
+            if len(tgt) == 1 and borrowed(tgt[0]):
+                continue
+            return False
+        if kind == 'stmt' and how in ('m', 'c') and len(pl) == 1 and CL.after(bi):
+            continue        # handed on after the loop (what becomes of it then is judged by root())
+        return False
+    if len(pushes) != 1:
+        return False
+    p = pushes[0]
+    if not CL.per_iteration(p.bb) or not all(fn.dominates(p.bb, l) for l in CL.latches):
+        return False
+    return root(fn, op_place(p.args[1]), p.bb)[:2] == CL.part
+
+
+def cut_function(sl, fn):
+    cache = sl.__dict__.setdefault('_c19_cuts', {})
+    if fn.path in cache:
+        return cache[fn.path]
+    res = None
+    ds = fn.whole_defs(0)
+    if fn.kind != 'Closure' and fn.vis != 'pub' and len(ds) == 1 and ds[0][0] == 'stmt' and not fn.partial_defs(0) \
+            and ds[0][3]['r'] == 'agg' and ds[0][3].get('kind') == 'tuple' and len(ds[0][3]['ops']) == 2:
+        rbb = ds[0][1]
+        ops = [op_place(o) for o in ds[0][3]['ops']]
+        for CL in cursor_loops(sl, fn):
+            if CL.other_exits or not CL.after(rbb) or None in ops:
+                continue
+            for ti in (0, 1):
+                if not CL.reads_tail(ops[ti], rbb):
+                    continue
+                A, proj, abb = root(fn, ops[1 - ti], rbb)
+                if A is None or proj or not CL.after(abb) or not _collects_parts(fn, A, CL):
+                    continue
+                res = Cut(fn, CL.buf - 1, strip(CL.marker)[2], str(1 - ti), str(ti))
+    cache[fn.path] = res
+    return res
